@@ -407,6 +407,16 @@ def main():
     for _ in range(n_sam):
         fails.extend(sam_scan_oracle(rng_s))
 
+    # "a new category initialised from that sample", FusionART over modules whose new weight is not a copy of the sample,
+    # for every container the sample may arrive in
+    import c10
+    rng_d = C.make_rng(seed, "C01-dtype")
+    n_dt = 60 if tier == "quick" else 600
+    for _ in range(n_dt):
+        r = c10.dtype_variants_any(rng_d)
+        if r:
+            fails.append(r)
+
     # fit on a used estimator (after training and reads)
     rng_r = C.make_rng(seed, "C01-refit")
     n_refit = 200 if tier == "quick" else 2000
